@@ -4,7 +4,9 @@
  *   (resolve() guarantees 0 < responselen < responsebuflen); responsepos anywhere from
  *   the start of the buffer up to responselen + 65535 (where an earlier record's
  *   `responsepos += rrdlen` can have left it); numanswers and wanttype any int.
- * One call of FN 0 findname, 1 findip, 2 findmx.  Obligation: every read is inside the
+ * One call of FN 0 findname, 1 findip, 2 findmx; FN 3: resolve() itself with the resolver
+ * call replaced by a stub that fills the buffer and returns any length 1..B-1 (TC bit clear:
+ * the 64 KiB EDNS retry is outside), i.e. its question-section loop over qdcount.  Obligation: every read is inside the
  * buffer (cbmc pointer/bounds checks; ASan on a malloc(B) block natively), result is one of
  * 0, 1, 2, DNS_SOFT, and a record is only reported (1) when its data lies in the buffer.
  *
@@ -52,11 +54,13 @@ int vf_dn_expand(const unsigned char *msg, const unsigned char *eom, const unsig
   unsigned int k = dn_calls++;
   CHECK(msg == response.buf && end == (long) rlen, "dn_expand is given the response and its end");
   CHECK(dst == name && dstsiz == MAXDNAME, "dn_expand expands into name[MAXDNAME]");
+#if FN != 3
   CHECK(k < 2, "at most two names per record");
   ASSUME(k < 2);
+#endif
   if (off < 0 || off >= end) return -1;                 /* name would start outside the message */
-  if (dn_fail & (1u << k)) return -1;
-  r = (long) dn_len[k];
+  if (dn_fail & (1u << (k & 7))) return -1;
+  r = (long) dn_len[k & 1];
   if (r < 1) r = 1;
   if (r > end - off) r = end - off;
   dst[0] = (char) dn_name[0];
@@ -64,12 +68,59 @@ int vf_dn_expand(const unsigned char *msg, const unsigned char *eom, const unsig
   return (int) r;
 }
 
+#if FN == 3
+#ifdef VERIF_CBMC
+/* glibc accessors behind `_res` and `h_errno`: plain objects for cbmc (natively the real ones are used) */
+static struct __res_state the_res; static int the_h_errno;
+struct __res_state *__res_state(void) { return &the_res; }
+int *__h_errno_location(void) { return &the_h_errno; }
+#endif
+int stralloc_ready(stralloc *x, unsigned int n) { CHECK(x == &glue && n <= 8, "glue is pre-sized (harness sizing)"); ASSUME(n <= 8); return 1; }
+int stralloc_readyplus(stralloc *x, unsigned int n) { return stralloc_ready(x, x->len + n); }
+static int my_lookup(const char *dname, int class, int type, unsigned char *answer, int anslen)
+{
+  unsigned int i;
+  CHECK(answer == response.buf && anslen == responsebuflen, "the resolver is given the response buffer and its size");
+  CHECK(class == C_IN, "class IN");
+  for (i = 0; i < B; ++i) answer[i] = rbytes[i];
+  return (int) rlen;
+}
+#endif
+
 void vmain(void)
 {
   int r;
   unsigned int i;
   sym_inputs();
   ASSUME(rlen >= 1 && rlen < B);
+#if FN == 3
+  {
+    static char dom[] = "ab", gstore[8];
+    stralloc d;
+    d.s = dom; d.len = 2; d.a = 3;
+    ASSUME(!(rbytes[2] & 2));                         /* TC clear: no 64 KiB retry over TCP */
+    /* a reply shorter than its own 12-byte header is allowed: resolve() then reads qdcount/ancount from bytes that
+     * are inside the buffer but behind the reply, and the walkers refuse the position behind the end */
+#ifdef VERIF_CBMC
+    response.buf = rstore;
+#else
+    response.buf = (unsigned char *) malloc(B);
+#endif
+    responsebuflen = B;
+    glue.s = gstore; glue.a = sizeof gstore; glue.len = 0;
+    lookup = my_lookup;
+    r = resolve(&d, wtype);
+    CHECK(r == 0 || r == DNS_SOFT || r == DNS_HARD || r == DNS_MEM, "C20(dns): resolve returns 0 or a DNS_* code");
+    if (r == 0) {
+      if (rlen >= sizeof(HEADER)) CHECK(POFF(responsepos) >= (long) sizeof(HEADER) && POFF(responsepos) <= (long) rlen, "C20(dns): after the question section the walker stands inside the response");
+      if (rlen < sizeof(HEADER)) WITNESS("reply_shorter_than_header");
+      if (dn_calls >= 2) WITNESS("two_questions_skipped");
+      WITNESS("resolved");
+    }
+    if (r == DNS_SOFT) WITNESS("soft_truncated_question");
+    return;
+  }
+#endif
   ASSUME(roff <= rlen + 65535);
 #ifdef VERIF_CBMC
   response.buf = rstore;
